@@ -1,0 +1,14 @@
+//go:build verif
+
+// Contracts for package xsub (comment-only; read by /verif/govc).
+
+package xsub
+
+//@ struct pipe
+//@   immutable: p s
+//@
+//@ struct socket
+//@   lock Mutex level 20
+//@   guarded_by Mutex: closed recvQLen recvExpire recvQ sizeQ
+//@   immutable: closeQ
+//@
